@@ -109,6 +109,7 @@ structure XState where
   converted : List (Nat × Bytes) := [] -- legacy roots re-stored in the new format by commits without new nodes: (node version, hash)
   kv : KVState := KVState.empty
   kvPfx : Bytes := []
+  holds : List (String × Nat) := []   -- open exports: (handle, pinned version)
 
 def init : XState := { vs := initT none, opened := false, cfgIv := none }
 
@@ -406,8 +407,8 @@ partial def exec (x : XState) (args : List String) : XState × String :=
   | "open" :: rest =>
     let target := match rest with | t :: _ => t.toNat! | [] => 0
     let (x', r) := stepOp x (.reopen x.cfgIv target)
-    ({ x' with opened := true, fastOpen := x.cfgFast }, r)
-  | ["close"] => ({ x with opened := false }, "ok")
+    ({ x' with opened := true, fastOpen := x.cfgFast, holds := [] }, r)
+  | ["close"] => ({ x with opened := false, holds := [] }, "ok")
   | ["dump"] => (x, "?")
   | ["encodedb", n] =>
     -- the model writes a database image of version n with its own encoder; from here on the store
@@ -466,6 +467,8 @@ partial def exec (x : XState) (args : List String) : XState × String :=
     -- a rollback into the legacy range shortens it
     (if r == "ok" then { x' with legacyLatest := x.legacyLatest.map (fun ll => min ll n.toNat!) } else x', r)
   | ["prune", n] =>
+    -- a request that would delete a version pinned by an open export is refused and changes nothing
+    if x.holds.any (fun h => firstVer x.vs.versions ≤ h.2 && h.2 ≤ n.toNat!) then (x, "err") else
     -- legacy versions are deleted in bulk: a target below the latest legacy version deletes nothing yet
     match x.legacyLatest with
     | some ll =>
@@ -557,8 +560,12 @@ partial def exec (x : XState) (args : List String) : XState × String :=
     let same := sameRoot x1.vs
     let (x2, r) := stepOp x1 (.save same)
     (x2, r)
-  | "hold" :: _ => (x, "?")
-  | "release" :: _ => (x, "?")
+  | ["hold", id, v] =>
+    (match findVer x.vs.versions v.toNat! with
+     | some (some _) => ({ x with holds := (id, v.toNat!) :: x.holds }, "ok")
+     | some none => (x, "?")
+     | none => (x, "err"))
+  | ["release", id] => ({ x with holds := x.holds.filter (fun h => h.1 != id) }, "ok")
   | "reads" :: _ => (x, "?")
   | ["changes", a, b] => (x, changesOut x.vs a.toNat! b.toNat!)
   | _ => (x, immOp (x.vs.base + 1) x.vs.working args)
